@@ -219,24 +219,23 @@ Qed.
 
 (* ---------- when is the reference reading the expression itself? ---------- *)
 
-(* no escapes, and every float literal is one the stage-0 VM loads exactly *)
-Fixpoint stable (e : expr) : Prop :=
+(* no escapes (and none of the nodes the translation cannot handle) *)
+Fixpoint escape_free (e : expr) : Prop :=
   match e with
   | EEscape _ | EBracket _ | EMatch _ _ | EMacroExpand _ _ | EBinOp _ _ _ | EUniOp _ _ | EError => False
-  | ELit (LFloat q) => imm_round q = q
   | ELit LPlaceHolder => False
   | ELit _ | EVar _ | EQualifiedVar _ => True
-  | EBlock b => OptP stable b
-  | ETuple es | EArrayLiteral es => AllP stable es
-  | EProj x _ | EFieldAccess x _ | EFeed _ x | EParen x => stable x
-  | EArrayAccess a b | EAssign a b => stable a /\ stable b
-  | ERecordLiteral fs | EImcompleteRecord fs => AllP (fun f : string * expr => stable (snd f)) fs
-  | ERecordUpdate r fs => stable r /\ AllP (fun f : string * expr => stable (snd f)) fs
-  | EApply f args => stable f /\ AllP stable args
-  | ELambda ps _ body => AllP (fun p : string * ty * option expr => OptP stable (snd p)) ps /\ stable body
-  | EThen a b => stable a /\ OptP stable b
-  | ELet _ _ v body | ELetRec _ _ v body => stable v /\ OptP stable body
-  | EIf c t el => stable c /\ stable t /\ OptP stable el
+  | EBlock b => OptP escape_free b
+  | ETuple es | EArrayLiteral es => AllP escape_free es
+  | EProj x _ | EFieldAccess x _ | EFeed _ x | EParen x => escape_free x
+  | EArrayAccess a b | EAssign a b => escape_free a /\ escape_free b
+  | ERecordLiteral fs | EImcompleteRecord fs => AllP (fun f : string * expr => escape_free (snd f)) fs
+  | ERecordUpdate r fs => escape_free r /\ AllP (fun f : string * expr => escape_free (snd f)) fs
+  | EApply f args => escape_free f /\ AllP escape_free args
+  | ELambda ps _ body => AllP (fun p : string * ty * option expr => OptP escape_free (snd p)) ps /\ escape_free body
+  | EThen a b => escape_free a /\ OptP escape_free b
+  | ELet _ _ v body | ELetRec _ _ v body => escape_free v /\ OptP escape_free body
+  | EIf c t el => escape_free c /\ escape_free t /\ OptP escape_free el
   end.
 
 Lemma mapM_id {A} (f : A -> res A) l : AllP (fun a => f a = Ok a) l -> mapM f l = Ok l.
@@ -248,20 +247,20 @@ Qed.
 Lemma optM_id {A} (f : A -> res A) o : OptP (fun a => f a = Ok a) o -> optM f o = Ok o.
 Proof. destruct o as [a|]; intros H; cbn [optM]; [rewrite H|]; reflexivity. Qed.
 
-Lemma rebuild_stable n r : forall e, stable e -> rebuild n r e = Ok e.
+Lemma rebuild_escape_free n r : forall e, escape_free e -> rebuild n r e = Ok e.
 Proof.
   induction e as
     [ l | x | segs | b IHb | es IHes | e1 i IH1 | e1 e2 IH1 IH2 | es IHes | fs IHfs | fs IHfs
     | e1 fs IH1 IHfs | e1 f IH1 | e1 args IH1 IHargs | e1 args IH1 IHargs | e1 op e2 IH1 IH2 | op e1 IH1
     | e1 IH1 | ps rt e1 IHps IH1 | e1 e2 IH1 IH2 | e1 b IH1 IHb | x e1 IH1 | p t e1 body IH1 IHb
     | x t e1 body IH1 IHb | e1 e2 e3 IH1 IH2 IH3 | e1 arms IH1 IHarms | e1 IH1 | e1 IH1 | ] using expr_ind';
-    intros S; cbn [stable] in S; try contradiction; rewrite rebuild_unfold; cbn zeta;
+    intros S; cbn [escape_free] in S; try contradiction; rewrite rebuild_unfold; cbn zeta;
     repeat match goal with H : _ /\ _ |- _ => destruct H end;
     repeat match goal with
-           | [ H : stable ?x -> rebuild n r ?x = Ok ?x, S : stable ?x |- _ ] => rewrite (H S); cbn [bind]
+           | [ H : escape_free ?x -> rebuild n r ?x = Ok ?x, S : escape_free ?x |- _ ] => rewrite (H S); cbn [bind]
            end;
     try reflexivity.
-  - destruct l; try reflexivity; try contradiction. rewrite S. reflexivity.
+  - destruct l; try reflexivity; contradiction.
   - rewrite (optM_id (rebuild n r) b); [reflexivity|]. destruct b; [|exact I]. cbn [OptP] in *. auto.
   - rewrite (mapM_id (rebuild n r) es); [reflexivity|]. clear -IHes S. induction es as [|a t IH]; [exact I|].
     destruct IHes, S. split; auto.
@@ -293,10 +292,10 @@ Qed.
 
 (* quote-then-splice is the identity *)
 Theorem quote_identity n k e r :
-  nf1 e -> stable e -> good_env r ->
+  nf1 e -> escape_free e -> good_env r ->
   ev n (tr_env r) (fst (translate_code e k)) = Ok (VCode e).
 Proof.
-  intros N S G. exact (proj2 (quote_splice_nf n k e r e N G (rebuild_stable n r e S))).
+  intros N S G. exact (proj2 (quote_splice_nf n k e r e N G (rebuild_escape_free n r e S))).
 Qed.
 
 (* ---------- lift ---------- *)
@@ -323,7 +322,7 @@ Proof.
   - cbn [mapM]. rewrite HS. reflexivity.
 Qed.
 
-(* ---------- refutations (findings F18, F19) ---------- *)
+(* ---------- refutation (finding F27) ---------- *)
 
 (* as long as code_match is not registered, the translation of a quoted match cannot run (and does not even
    pass the scope check of the stage-0 compiler) *)
@@ -343,16 +342,6 @@ Proof.
   - unfold make_apply. cbn [scope0 first_err map fold_right existsb orb]. rewrite HX. reflexivity.
 Qed.
 
-(* 0.001 *)
-Definition q_milli : num := S754_finite false 4611686018427388 (-62).
-(* 0.0010004043579101562 = f16(0.001) *)
-Definition q_milli_half : num := S754_finite false 4613550790148096 (-62).
-
-Theorem literal_not_exact :
-  imm_round q_milli = q_milli_half /\ q_milli_half <> q_milli /\
-  expand 1 0 (EBracket (ELit (LFloat q_milli))) = Ok (ELit (LFloat q_milli_half)).
-Proof. split; [vm_compute; reflexivity | split; [discriminate | vm_compute; reflexivity]]. Qed.
-
 (* ---------- `!` sugar ---------- *)
 
 Theorem macroexpand_is_splice f args :
@@ -365,7 +354,7 @@ Theorem macroexpand_translate f args k :
   = translate_stage0 (EApply (convert_macroexpand f) (map convert_macroexpand args)) k.
 Proof. reflexivity. Qed.
 
-(* ---------- refutation (finding F20): a record pattern of a quoted let is not preserved ---------- *)
+(* ---------- refutation (finding F28): a record pattern of a quoted let is not preserved ---------- *)
 
 (* let {a = x, b = y} = r; x   inside a quotation is generated as   let a = r; x   (x, y no longer bound) *)
 Theorem record_pattern_lost :
